@@ -290,6 +290,29 @@ def layout_of_encoder(facts, name):
             f = src_field(val)
             if i is not None and f:
                 lay[f] = (i, i + 1)
+    # the encoder may also build the array in one literal: element i is byte i
+    ret = ir.peel(r.ret) if r.ret is not None else None
+    if ret is not None and ret[0] == 'agg' and ret[1] == 'array' and not lay:
+        multi = {}
+        for i, (_, el) in enumerate(ret[3]):
+            e = ir.peel(el)
+            if e[0] == 'index' and isinstance(e[2], tuple) and ir.const_value(e[2]) is not None:
+                base = ir.peel(e[1])
+                if base[0] == 'call' and base[1] == "core::num::to_be_bytes":
+                    f = src_field(base[2][0])
+                    if f:
+                        multi.setdefault(f, []).append((i, ir.const_value(e[2])))
+                        continue
+            f = src_field(e)
+            if f:
+                lay[f] = (i, i + 1)
+        for f, pairs in multi.items():
+            pos = [p_ for p_, _ in pairs]
+            ks = [k_ for _, k_ in pairs]
+            if ks == list(range(len(ks))) and pos == list(range(pos[0], pos[0] + len(pos))):
+                lay[f] = (pos[0], pos[-1] + 1)
+            else:
+                lay[f] = ("byte order", tuple(ks))
     for (nm, args, n) in r.called("core::slice::copy_from_slice"):
         dst, src = ir.peel(args[0]), ir.peel(args[1])
         rng = [x for x in ir.walk(dst) if x[0] == 'agg' and x[2].startswith("std::ops::Range")]
@@ -383,8 +406,8 @@ def r17_6_set_lengths(rep, facts):
             continue
         seen.add(verdict)
         if verdict == 'zero':
-            # padding = remainder (= 0)
-            good = ir.peel(pad) == rem
+            # padding = remainder (= 0), or the literal 0
+            good = ir.peel(pad) == rem or ir.const_value(pad) == 0
             detail.append("r == 0 => padding r (0)")
         else:
             p = pad
@@ -506,20 +529,6 @@ def r17_5_response(rep, facts):
                 rep.ok("R17.5", "write_response/header", "GetValuesResult with the null request id", "%s:%d" % (t["sp"]["f"], t["sp"]["l"]))
             else:
                 rep.violation("R17.5", "write_response/header", "reply header is (%s, %s); expected (GetValuesResult, 0)" % (ir.show(a0), ir.show(a1)), "%s:%d" % (t["sp"]["f"], t["sp"]["l"]))
-        if nm == "protocol::nv::write":
-            a0 = ir.peel(r.operand(t["args"][0], (bi, -1)))
-            vals = agg_field(a0, 1)
-            srcs = set()
-            for x in ir.walk(vals) if vals is not None else []:
-                if x[0] == 'field' and x[2] == 'max_conns':
-                    srcs.add('max_conns')
-                if x[0] == 'call' and x[1].endswith("const_new"):
-                    cv = ir.const_value(x[2][0]) if x[2] else None
-                    srcs.add('const:%s' % (cv.decode() if isinstance(cv, bytes) else cv))
-            if srcs == {'max_conns', 'const:0'}:
-                rep.ok("R17.5", "write_response/values", "values are config.max_conns (both limits) or the constant \"0\" (multiplexing)", "%s:%d" % (t["sp"]["f"], t["sp"]["l"]))
-            else:
-                rep.violation("R17.5", "write_response/values", "value sources are %s; expected config.max_conns and \"0\"" % sorted(srcs), "%s:%d" % (t["sp"]["f"], t["sp"]["l"]))
     # which flag gets which value: table of the match on the flag bits
     ev_rows = paths.rows(g, max_paths=20000)
     flag_vals = {}
@@ -543,6 +552,23 @@ def r17_5_response(rep, facts):
             cv = case_value(lab)
             if cv is not None and any(y[0] == 'call' and y[1].endswith("::bits") for y in ir.walk(e)):
                 flag_vals.setdefault(cv, set()).add(kind)
+    # value sources over all paths (helpers introduced later are looked through by the path engine)
+    srcs = set()
+    wloc = b.loc()
+    for row in ev_rows:
+        for wr_ in row.called("protocol::nv::write"):
+            vals = agg_field(ir.peel(wr_[1][0]), 1)
+            wloc = wr_[2].loc()
+            for x in ir.walk(vals) if vals is not None else []:
+                if x[0] == 'field' and x[2] == 'max_conns':
+                    srcs.add('max_conns')
+                if x[0] == 'call' and x[1].endswith("const_new"):
+                    cv_ = ir.const_value(x[2][0]) if x[2] else None
+                    srcs.add('const:%s' % (cv_.decode() if isinstance(cv_, bytes) else cv_))
+    if srcs == {'max_conns', 'const:0'}:
+        rep.ok("R17.5", "write_response/values", "values are config.max_conns (both limits) or the constant \"0\" (multiplexing)", wloc)
+    else:
+        rep.violation("R17.5", "write_response/values", "value sources are %s; expected config.max_conns and \"0\"" % sorted(srcs), wloc)
     want = {mc: {'max_conns'}, mr: {'max_conns'}, mp: {'zero'}}
     if flag_vals and all(flag_vals.get(k) == v for k, v in want.items()):
         rep.ok("R17.5", "write_response/value-table", "MAX_CONNS, MAX_REQS -> config.max_conns; MPXS_CONNS -> \"0\"", b.loc())
